@@ -9,6 +9,7 @@ import (
 	"sort"
 	"strings"
 
+	"verif/checker/cfgx"
 	"verif/checker/scanpds"
 )
 
@@ -874,4 +875,144 @@ func RuleUS1(c *Ctx) {
 		}
 	}
 	sc.End()
+}
+
+// RuleZ1: the end-of-input sentinel is the scanner's own. The automaton is analysed with
+// "byte 0 means end of input"; that is sound only if a zero byte of the data never reaches a
+// step function. In the driver (the Scanner method that calls the current step with a byte),
+// every value that can be handed to the step is either the sentinel constant itself or a
+// data byte that was compared with the sentinel first, the equal case ending in an error -
+// also when the byte is fetched by a helper. A NUL in the file would otherwise be taken for
+// the end of the file by whichever state is current, consumed, and belong to no lexeme.
+func RuleZ1(c *Ctx) {
+	sc := c.Run.Begin("Z1", "every byte the driver hands to the current step is the end-of-input sentinel itself or a data byte that was tested against the sentinel (equal: error) on every path", 1)
+	defer sc.End()
+	m, _, err := c.Machine()
+	if err != nil || m == nil {
+		sc.Undecided("extract", "-", "the scanner model could not be extracted")
+		return
+	}
+	pk := c.P.Pkg("scanner")
+	info := pk.TypesInfo
+	stepField, dataField := m.StepField(), m.DataField()
+	if stepField == nil || dataField == nil {
+		sc.Undecided("anchors", "-", "unresolved anchor: the step and data fields of the scanner")
+		return
+	}
+	isEOF := func(e ast.Expr) bool {
+		tv, ok := info.Types[e]
+		return ok && tv.Value != nil && tv.Value.ExactString() == "0" && isByte(tv.Type)
+	}
+	isData := func(e ast.Expr) bool {
+		ix, ok := ast.Unparen(e).(*ast.IndexExpr)
+		if !ok {
+			return false
+		}
+		sel, ok := ast.Unparen(ix.X).(*ast.SelectorExpr)
+		return ok && info.ObjectOf(sel.Sel) == types.Object(dataField)
+	}
+	var judge func(fd *ast.FuncDecl, e ast.Expr, at ast.Node, depth int) (bool, string)
+	judge = func(fd *ast.FuncDecl, e ast.Expr, at ast.Node, depth int) (bool, string) {
+		e = ast.Unparen(e)
+		switch {
+		case isEOF(e):
+			return true, ""
+		case isData(e):
+			return false, "a data byte (" + types.ExprString(e) + ") is handed on without having been compared with the sentinel"
+		}
+		switch x := e.(type) {
+		case *ast.Ident:
+			obj := info.ObjectOf(x)
+			cf := c.CFG(pk, fd.Body)
+			assignsTo := func(nd ast.Node, pred func(ast.Expr) bool) bool {
+				as, ok := nd.(*ast.AssignStmt)
+				if !ok || len(as.Lhs) != len(as.Rhs) {
+					return false
+				}
+				for i, l := range as.Lhs {
+					if id, ok := l.(*ast.Ident); ok && info.ObjectOf(id) == obj && pred(as.Rhs[i]) {
+						return true
+					}
+				}
+				return false
+			}
+			notEOF := func(fa cfgx.Fact) bool {
+				be, ok := ast.Unparen(fa.Expr).(*ast.BinaryExpr)
+				if !ok || (be.Op != token.EQL && be.Op != token.NEQ) {
+					return false
+				}
+				l, r := be.X, be.Y
+				if isEOF(l) {
+					l, r = r, l
+				}
+				id, ok := ast.Unparen(l).(*ast.Ident)
+				if !ok || info.ObjectOf(id) != obj || !isEOF(r) {
+					return false
+				}
+				return (be.Op == token.NEQ) == fa.Truth
+			}
+			okV := cf.MustAt(at, notEOF,
+				func(nd ast.Node) bool { return assignsTo(nd, isEOF) },
+				func(nd ast.Node) bool {
+					return assignsTo(nd, func(r ast.Expr) bool { return !isEOF(r) })
+				})
+			if okV {
+				return true, ""
+			}
+			return false, "the byte variable " + x.Name + " reaches the step without the sentinel test on some path after it was loaded"
+		case *ast.CallExpr:
+			g := Callee(info, x)
+			gd := c.P.Decl(g)
+			if g == nil || gd == nil || depth > 2 {
+				return false, "the byte comes from " + types.ExprString(x) + ", which cannot be followed"
+			}
+			res := true
+			why := ""
+			inspectNoLit(gd.Body, func(n ast.Node) bool {
+				ret, ok := n.(*ast.ReturnStmt)
+				if !ok || len(ret.Results) == 0 {
+					return true
+				}
+				if ok2, w := judge(gd, ret.Results[0], ret, depth+1); !ok2 {
+					res, why = false, g.Name()+": "+w
+				}
+				return true
+			})
+			return res, why
+		}
+		return false, "the byte expression " + types.ExprString(e) + " is not understood"
+	}
+	n := 0
+	c.P.Funcs(func(p *pkgT, fd *ast.FuncDecl) {
+		if p != pk || strings.Contains(c.P.Pos(fd.Pos()), "_test.go") {
+			return
+		}
+		if _, isState := m.ByObj[info.Defs[fd.Name].(*types.Func)]; isState {
+			return
+		}
+		if m.FuncsSeen[fd.Name.Name] {
+			return // step helpers re-dispatch the byte they were given
+		}
+		inspectNoLit(fd.Body, func(x ast.Node) bool {
+			call, ok := x.(*ast.CallExpr)
+			if !ok || len(call.Args) != 2 {
+				return true
+			}
+			sel, ok := ast.Unparen(call.Fun).(*ast.SelectorExpr)
+			if !ok || info.ObjectOf(sel.Sel) != types.Object(stepField) {
+				return true
+			}
+			n++
+			key := fmt.Sprintf("%s#%d", c.P.DeclName(fd), n)
+			if ok2, why := judge(fd, call.Args[1], call, 0); ok2 {
+				sc.Holds(key, c.P.Pos(call.Pos()), "the byte is the sentinel or a data byte tested against it")
+			} else {
+				sc.Violation(key, c.P.Pos(call.Pos()), why+": a zero byte in the file is taken for the end of the input by whichever state is current - it is consumed, belongs to no lexeme and is reported by nobody")
+			}
+			return true
+		})
+	})
+	if n == 0 {
+		sc.Undecided("driver", "-", "unresolved anchor: the call of the current step with a byte outside the step functions")
+	}
 }
